@@ -318,21 +318,27 @@ class EventsSuite(Suite):
             lg.removeHandler(h)
 
     def _write(self, path, events, mode="w"):
-        from jade.events import StructuredLogEvent, StructuredErrorLogEvent
-        from jade.loggers import setup_event_logging, log_event, close_event_logging
+        from jade.loggers import setup_event_logging, close_event_logging
         setup_event_logging(str(path), mode=mode)
         try:
-            for ev in events:
-                cls = StructuredErrorLogEvent if ev["cls"] == "StructuredErrorLogEvent" else StructuredLogEvent
-                kwargs = dict(ev["data"])
-                if ev.get("clock"):
-                    FakeDatetime.script = [_dt.datetime.fromisoformat(ev["timestamp"])]
-                else:
-                    kwargs["timestamp"] = ev["timestamp"]
-                event = cls(source=ev["source"], category=ev["category"], name=ev["name"], message=ev["message"], **kwargs)
-                log_event(event)
+            self._log(events)
         finally:
             close_event_logging()
+
+    @staticmethod
+    def _log(events):
+        """the real `log_event` on real event objects, through whatever file the event logger is set up with"""
+        from jade.events import StructuredLogEvent, StructuredErrorLogEvent
+        from jade.loggers import log_event
+        for ev in events:
+            cls = StructuredErrorLogEvent if ev["cls"] == "StructuredErrorLogEvent" else StructuredLogEvent
+            kwargs = dict(ev["data"])
+            if ev.get("clock"):
+                FakeDatetime.script = [_dt.datetime.fromisoformat(ev["timestamp"])]
+            else:
+                kwargs["timestamp"] = ev["timestamp"]
+            event = cls(source=ev["source"], category=ev["category"], name=ev["name"], message=ev["message"], **kwargs)
+            log_event(event)
 
     @staticmethod
     def _out_event(e):
@@ -534,6 +540,55 @@ class EventsSuite(Suite):
         cfg.append_submission_group(SubmissionGroup(name="default", submitter_params=params))
         return cfg
 
+    def _job_process(self, out, job, events):
+        """One job process: `jade-internal run <extension> --name <job> --output <output>/job-outputs --config-file …`
+        through the REAL `jade.cli.run.run` (its makedirs, `setup_event_logging(<job dir>/events.log, mode=…)`,
+        `setup_logging`), for an extension whose CLI logs the case's events through `log_event`."""
+        import jade.cli.run as run_mod
+        from jade.common import JOBS_OUTPUT_DIR
+        from jade.loggers import close_event_logging
+        suite = self
+
+        class Cli:
+            @staticmethod
+            def run(config_file, name, output, output_format, verbose):
+                suite._log(events)
+                return 0
+
+        class Reg:
+            def is_registered(self, extension):
+                return True
+
+            def get_extension_class(self, extension, class_type):
+                return Cli
+        aux = out / "verif-aux"
+        aux.mkdir(exist_ok=True)
+        cfg = aux / "job_config.json"
+        if not cfg.exists():
+            cfg.write_text("{}")
+        saved = run_mod.Registry
+        run_mod.Registry = Reg
+        try:
+            run_mod.run.callback("verif_ext", name=job, output=str(out / JOBS_OUTPUT_DIR), config_file=str(cfg),
+                                 output_format="csv", verbose=False)
+        except SystemExit as e:
+            if e.code not in (0, None):
+                raise RuntimeError(f"jade-internal run exited with {e.code}")
+        finally:
+            run_mod.Registry = saved
+            close_event_logging()
+            self._drop_general_logging()
+
+    @staticmethod
+    def _drop_general_logging():
+        """`setup_logging` of cli/run.py leaves file handlers (run.log in the scratch directory) on the package loggers"""
+        for name, lg in list(logging.root.manager.loggerDict.items()):
+            if isinstance(lg, logging.Logger) and name != "_jade_event":
+                for h in list(lg.handlers):
+                    if isinstance(h, logging.FileHandler) and "jadeverif-" in getattr(h, "baseFilename", ""):
+                        lg.removeHandler(h)
+                        h.close()
+
     def _agg_step(self, st, out, runners, probe, obs, sums):
         from jade.common import EVENTS_DIR, JOBS_OUTPUT_DIR
         from jade.events import EventsSummary
@@ -558,11 +613,9 @@ class EventsSuite(Suite):
         elif k == "runnerLog":
             runner = runners[st["rid"]]
             self._real("run-jobs log", lambda: self._write(runner.event_filename, st["events"], mode="a"))
-        elif k == "jobRun":       # jade/cli/run.py: makedirs(job_dir), setup_event_logging(job_dir/events.log, mode="a"), log_event…
+        elif k == "jobRun":
             if st["file"]:
-                job_dir = out / JOBS_OUTPUT_DIR / st["job"]
-                os.makedirs(job_dir, exist_ok=True)
-                self._real("job log", lambda: self._write(job_dir / "events.log", st["events"], mode="a"))
+                self._real("jade-internal run", lambda: self._job_process(out, st["job"], st["events"]))
         elif k == "aggregate":
             runner = runners[st["rid"]]
             setup_event_logging(runner.event_filename, mode="a")   # the run-jobs process still has its file open
@@ -617,8 +670,9 @@ class EventsSuite(Suite):
                 jobfiles = []
                 jd = out / JOBS_OUTPUT_DIR
                 for d in (sorted(jd.iterdir()) if jd.is_dir() else []):
-                    if d.is_dir():
-                        jobfiles += [[f"{d.name}/{f.name}", lines(f)] for f in sorted(d.iterdir()) if f.is_file()]
+                    if d.is_dir():   # run.log: the job's general log (cli/run.py), not an event file
+                        jobfiles += [[f"{d.name}/{f.name}", lines(f)] for f in sorted(d.iterdir())
+                                     if f.is_file() and f.name != "run.log"]
                 jobfiles.sort(key=lambda x: x[0])
         finally:
             close_event_logging()
